@@ -156,7 +156,7 @@ def opPrio (args : String) : String :=
   let as : List (Args.Arg String) := toks.map fun f =>
     if f.startsWith "k:" then ⟨some ((f.drop 2).toString.toList ++ [':']), (f.drop 2).toString⟩
     else ⟨none, (f.drop 2).toString⟩
-  " ".intercalate ((Args.prioritize as).map fun a => (if a.key.isSome then "k:" else "p:") ++ a.val)
+  " ".intercalate ((Args.prioritize as).map fun a => (if a.key.isSome then "k:" else "p:") ++ a.val) ++ " | fresh"
 
 def opPDef (args : String) : String :=
   let names := ((args.splitOn " ").filter (· != "")).map String.toList
@@ -317,7 +317,7 @@ def dashS (s : String) : Str := if s == "-" then [] else s.toList
 /-- lookup <i|c> <frame> <cls> <method> <priv> | methods | edges | builtin classes -/
 def opLookup (args : String) : String :=
   match args.splitOn " | " with
-  | [q, ms, es, bcs] =>
+  | [q, ms, es, bcs, tops] =>
     let keys : List Frame.FrameKey := ((ms.trimAscii.toString.splitOn ";").filter (· != "")).map fun e =>
       match e.splitOn "~" with
       | [f, c, m, p, st] =>
@@ -332,7 +332,9 @@ def opLookup (args : String) : String :=
         let node : Inherit.Node := { frame := dashS pf, cls := dashS pc, isInclude := inc == "1", isExtend := ext == "1" }
         Frame.insert g k ((Frame.lookup g k).getD [] ++ [node])
       | _ => g) []
-    let bc := ((bcs.trimAscii.toString.splitOn ",").filter (· != "")).map String.toList
+    -- `bc` of the model = configured short names that the program does not define at top level itself
+    let top := ((tops.trimAscii.toString.splitOn ",").filter (· != "")).map String.toList
+    let bc := (((bcs.trimAscii.toString.splitOn ",").filter (· != "")).map String.toList).filter fun c => !top.contains c
     match q.splitOn " " with
     | [kind, f, c, m, p] =>
       let fuel := 4 * (es.length + 4)
